@@ -42,5 +42,24 @@ theorem arrSet_unfold {w : World} {p : SlabID} {i : Nat} {v : WVal} {cx : Ctx} {
       · rintro o wr rfl rfl
         simp
 
+/-- an element of a live array that refers to `x`: the array holds `x` -/
+theorem holds_arr_of_mem {w : World} {p x : SlabID} {a : Arr} {e : Elem} (hp : w.cont? p = some (.arr a))
+    (he : e ∈ a.toList) (hx : e.pay = .ref x) : Holds w p x :=
+  ⟨_, hp, mem_pays_iff.mpr ⟨e, he, hx⟩⟩
+
+/-- a value of a live map that refers to `x`: the map holds `x` -/
+theorem holds_map_of_mem {w : World} {p x : SlabID} {m : OMap 3} {k : MKey} {e : Elem} (hp : w.cont? p = some (.map m))
+    (he : (k, e) ∈ m.toList) (hx : e.pay = .ref x) : Holds w p x :=
+  ⟨_, hp, mem_pays_iff.mpr ⟨e, List.mem_map.mpr ⟨_, he, rfl⟩, hx⟩⟩
+
+/-- the container handed back by an operation is a detached root afterwards, standalone, with the
+    same data and value ID -/
+theorem HandedBack.detached {w w' : World} {old : Elem} {x : SlabID} {c : Cont} (hb : HandedBack w w' old)
+    (hx : old.pay = .ref x) (hc : w.cont? x = some c) :
+    DetachedRoot w' x ∧ ∃ c', w'.cont? x = some c' ∧ c'.isInlined = false ∧ c'.vid = c.vid ∧
+      c'.storedElems = c.storedElems := by
+  obtain ⟨c', h1, h2, h3, h4, h5⟩ := hb x c hx hc
+  exact ⟨⟨by rw [h1]; rfl, h5⟩, c', h1, h2, h3, h4⟩
+
 end World
 end Atree
